@@ -234,14 +234,18 @@ fn c06_backend<V: VirtualFileSystem>(v: &V, backend: &str, root: &str, ctx: &Ctx
             },
             5 => {
                 let n = rng.below(4);
-                let lines: Vec<String> = (0..n).map(|i| if rng.chance(1, 5) { String::new() } else { format!("wl{}-{}é", uid, i) }).collect();
+                let lines: Vec<String> = (0..n).map(|i| match rng.below(10) {
+                    0 | 1 => String::new(),
+                    2 => format!("wl{}-{}é\n", uid, i),
+                    _ => format!("wl{}-{}é", uid, i),
+                }).collect();
                 uid += 1;
                 after = format!("write_lines({}, {} lines)", f, n);
                 rep.key_str(&format!("{}|write_lines|{}|{}", backend, n, pre_cls));
                 if exec(v, &Op::WriteLines(f.clone(), lines.clone())) == Res::Unit {
                     model.insert(f.clone(), lines.iter().map(|l| format!("{}\n", l)).collect::<String>().into_bytes());
                     // round trip law for terminator-free non-empty lines
-                    if lines.iter().all(|l| !l.is_empty()) {
+                    if lines.iter().all(|l| !l.is_empty() && !l.contains('\n')) {
                         if let Res::Lines(back) = exec(v, &Op::ReadLines(f.clone())) {
                             if back != lines {
                                 rep.violation(&format!("bytes:read_lines(write_lines)({}):identity→differs", backend), J::obj(vec![("lines", J::strs(&lines)), ("back", J::strs(&back))]));
@@ -253,7 +257,14 @@ fn c06_backend<V: VirtualFileSystem>(v: &V, backend: &str, root: &str, ctx: &Ctx
                 }
             },
             6 => {
-                let l = if rng.chance(1, 5) { String::new() } else { format!("al{}€", uid) };
+                // (also lines that already end in a terminator: the helper still adds exactly one newline)
+                let l = match rng.below(10) {
+                    0 | 1 => String::new(),
+                    2 => format!("al{}€\n", uid),
+                    3 => format!("al{}\r\n", uid),
+                    4 => "\n".to_string(),
+                    _ => format!("al{}€", uid),
+                };
                 uid += 1;
                 after = format!("append_line({}, {:?})", f, l);
                 rep.key_str(&format!("{}|append_line|{}|{}", backend, l.is_empty(), pre_cls));
@@ -263,7 +274,7 @@ fn c06_backend<V: VirtualFileSystem>(v: &V, backend: &str, root: &str, ctx: &Ctx
             },
             7 => {
                 let n = rng.below(3);
-                let lines: Vec<String> = (0..n).map(|i| format!("as{}-{}", uid, i)).collect();
+                let lines: Vec<String> = (0..n).map(|i| if rng.chance(1, 5) { format!("as{}-{}\n", uid, i) } else { format!("as{}-{}", uid, i) }).collect();
                 uid += 1;
                 after = format!("append_lines({}, {} lines)", f, n);
                 rep.key_str(&format!("{}|append_lines|{}|{}", backend, n, pre_cls));
